@@ -3,9 +3,104 @@ import ShelxModel.C10
 open Lean Shelx.J
 
 namespace Shelx.Drv.C10
+open Shelx.C10
+
+def errName : Err → String
+  | .valueError => "ValueError"
+  | .syntaxError => "SyntaxError"
+  | .zeroDivision => "ZeroDivisionError"
+  | .noneTranslation => "NoneTranslation"
+  | .unmodelled => "Unmodelled"
+
+def coefJson (c : Coef) : Json := ofInts [c.1, c.2.1, c.2.2]
+
+def rowJson (r : Row) : Json := Json.mkObj [("m", coefJson r.c), ("t", ofRat r.t)]
+
+def parsedJson : Except Err (Coef × Rat) → Json
+  | .ok p => Json.mkObj [("ok", Json.bool true), ("m", coefJson p.1), ("t", ofRat p.2)]
+  | .error e => Json.mkObj [("ok", Json.bool false), ("err", Json.str (errName e))]
+
+def digitsOf (j : Json) : Except String (List Digit) := do
+  let l ← ints j
+  l.mapM fun i => if h : 0 ≤ i ∧ i.toNat < 10 then .ok ⟨i.toNat, h.2⟩ else err s!"not a digit: {i}"
+
+def signOf (s : String) : Except String Sign :=
+  match s with
+  | "" => .ok .none
+  | "+" => .ok .plus
+  | "-" => .ok .minus
+  | _ => err s!"bad sign {s}"
+
+def axisOf (s : String) : Except String Axis :=
+  match s with
+  | "x" => .ok .x
+  | "y" => .ok .y
+  | "z" => .ok .z
+  | _ => err s!"bad axis {s}"
+
+def numeralOf (j : Json) : Except String Numeral := do
+  match ← strField j "t" with
+  | "frac" => return .frac (← field j "n" >>= digitsOf) (← field j "d" >>= digitsOf)
+  | "int" => return .int (← field j "ip" >>= digitsOf)
+  | "dec" => return .dec (← field j "ip" >>= digitsOf) (← field j "fp" >>= digitsOf)
+  | t => err s!"bad numeral {t}"
+
+def itemOf (j : Json) : Except String Item := do
+  let s ← strField j "s" >>= signOf
+  match ← strField j "k" with
+  | "t" => return .term s (← strField j "a" >>= axisOf)
+  | "n" => return .num s (← field j "num" >>= numeralOf)
+  | k => err s!"bad item {k}"
+
+/-- exact rational sent as {"n": int, "d": nat} -/
+def qOf (j : Json) : Except String Rat := do
+  let n ← intField j "n"
+  let d ← natField j "d"
+  if d = 0 then err "zero denominator" else return mkRat n d
+
+def rowOf (j : Json) : Except String Row := do
+  let m ← field j "m" >>= ints
+  match m with
+  | [a, b, c] => return ⟨(a, b, c), ← field j "t" >>= qOf⟩
+  | _ => err "row: three coefficients expected"
+
+def opOf (j : Json) : Except String Op := do
+  match ← arr j >>= fun l => l.mapM rowOf with
+  | [a, b, c] => return ⟨a, b, c⟩
+  | _ => err "op: three rows expected"
 
 def handle (j : Json) : Except String Json := do
   let op ← strField j "op"
-  err s!"C10: unknown op {op}"
+  match op with
+  | "parse" =>
+    -- one component string as given to the implementation (+ optionally the grammar term it was printed from)
+    let s ← strField j "s"
+    let model := parseComp s.toList
+    match fieldOpt j "items" with
+    | none => return Json.mkObj [("model", parsedJson model)]
+    | some its =>
+      let c ← arr its >>= fun l => l.mapM itemOf
+      let d := denote c
+      return Json.mkObj [("model", parsedJson model), ("print", Json.str (String.ofList (print c))),
+                         ("valid", Json.bool (Valid c)), ("shelxl", Json.bool (Shelxl c)),
+                         ("in_layout", Json.bool (normalise s.toList = print c)),
+                         ("spec", Json.mkObj [("m", coefJson d.1), ("t", ofRat d.2)])]
+  | "card" =>
+    -- a whole SYMM line: the component strings the card hands to SymmetryElement, each parsed
+    let line ← strField j "line"
+    let comps := symmCard line.toList
+    return Json.mkObj [("comps", ofStrs (comps.map String.ofList)),
+                       ("model", Json.arr (comps.map fun c => parsedJson (parseComp c)).toArray)]
+  | "print" =>
+    -- to_shelxl of an operator (translations with finite decimal expansion), and the model's parse of it
+    let o ← field j "rows" >>= opOf
+    let txt := toShelxl fmtDec o.rows
+    let back := (splitComma txt).map fun c => parsedJson (parseComp c)
+    return Json.mkObj [("text", Json.str (String.ofList txt)), ("back", Json.arr back.toArray)]
+  | "eq" =>
+    let a ← field j "a" >>= opOf
+    let b ← field j "b" >>= opOf
+    return Json.mkObj [("model", Json.bool (eqModel tolPy a b)), ("spec", Json.bool (latticeEqB a b))]
+  | _ => err s!"C10: unknown op {op}"
 
 end Shelx.Drv.C10
